@@ -143,6 +143,10 @@ fn check_i(sa: bool, a: &[u64], sb: bool, b: &[u64]) -> Verdict {
         Some(r) => ctx(pr.check_i(&r, neg), "BigInt checked_mul")?,
         None => return Err("BigInt checked_mul returned None".into()),
     }
+    match must_return("CheckedMul::checked_mul", || CheckedMul::checked_mul(&x, &y))? {
+        Some(r) => ctx(pr.check_i(&r, neg), "<BigInt as CheckedMul>::checked_mul")?,
+        None => return Err("<BigInt as CheckedMul>::checked_mul returned None".into()),
+    }
     let (la, lb) = (gen::trim(a.to_vec()).len(), gen::trim(b.to_vec()).len());
     let sc = match (la > 0 && sa, lb > 0 && sb) {
         (false, false) => "sign(+,+)",
@@ -345,7 +349,7 @@ impl Property for C02 {
     fn budget(&self, tier: Tier) -> Budget {
         match tier {
             Tier::Quick => Budget { release: 1_000_000, dbg: 120_000, workers: 8 },
-            Tier::Thorough => Budget { release: 8_000_000, dbg: 800_000, workers: 16 },
+            Tier::Thorough => Budget { release: 24_000_000, dbg: 2_400_000, workers: 16 },
         }
     }
     fn probes(&self) -> Vec<Probe> {
